@@ -84,6 +84,28 @@ def d_mathalg(pid, what):
                  "MC_MathAlg", "MC_MathAlg_%s.cfg" % pid, "big", workers=8)
 D_MATHALG_REFUTE = d_tlc("MC_MathAlg_refute: exp with the original frac_nbits() term count, I9F3", "MC_MathAlg", "MC_MathAlg_refute.cfg", "big",
                          expect="violated")
+def _trig(inv, cinit, what, expect="ok", thorough_only=False):
+    return d_apa("TrigReduce (Apalache, EVERY angle |x| <= 200, %s): %s" % ({"CInit23": "I9F23", "CInit32": "f = 32", "CInit64": "f = 64", "CInit88": "f = 88"}[cinit], what),
+                 "AP_TrigReduce.tla", cinit, inv, expect=expect, thorough_only=thorough_only)
+D_TRIG_FITS = [_trig("Fits", "CInit23", "no intermediate of the reduction leaves a 9-integer-bit type (sin, cos = sin(x + pi/2), tan = f(2x) for |x| <= 100)"),
+               _trig("Fits", "CInit64", "the same with the constants widened to 64 fractional bits")]
+D_TRIG = [
+    d_tlc("MC_TrigConst (TLC, 200-bit arithmetic): the I9F23 constants are the truncations of 2 pi, pi, pi/2; the 23-bit table is the "
+          "U0F128 table truncated and that table is atan(2^-i) to 2^-53; reduction + mirror + CORDIC residual + table truncation < 2^-17; "
+          "gain constant within 2^-32", "MC_TrigConst", "MC_TrigConst.cfg", "big", workers=1),
+    _trig("InRange", "CInit23", "the angle handed to the CORDIC rotation lies in [-pi/2, pi/2]"),
+    _trig("Period", "CInit23", "the reduced angle is x - k TWO_PI with |k| <= 32"),
+    _trig("Mirror", "CInit23", "the mirrored angle is a, 2 FRAC_PI_2 - a or -2 FRAC_PI_2 - a"),
+    _trig("NoMirrorUp", "CInit23", "non-vacuity: the mirror branch is reachable", expect="violated"),
+    _trig("InRange", "CInit64", "[-pi/2, pi/2] with the constants widened to 64 fractional bits"),
+    _trig("InRange", "CInit32", "[-pi/2, pi/2], f = 32", thorough_only=True),
+    _trig("InRange", "CInit88", "[-pi/2, pi/2], f = 88", thorough_only=True),
+    _trig("Period", "CInit64", "period count, f = 64", thorough_only=True),
+    _trig("Mirror", "CInit64", "mirror, f = 64", thorough_only=True),
+] + [d_apa("CordicZ (Apalache, EVERY start angle in [-pi/2, pi/2] and every table truncation, %s): after the 24 rotations the residual angle "
+           "is at most 16 ulp of I9F23" % n, "AP_CordicZ.tla", ci, "Converges", thorough_only=to)
+     for ci, n, to in [("CInit23", "I9F23", False), ("CInit64", "f = 64", False), ("CInit32", "f = 32", True), ("CInit88", "f = 88", True)]] + [
+    d_apa("CordicZ: non-vacuity, the residual is not always zero", "AP_CordicZ.tla", "CInit23", "Exact", expect="violated")]
 DESIGNS = {
     "C01": [D_SEM] + D_MUL + D_DIV, "C02": [D_SEM] + D_MUL[:2] + D_MUL[6:11], "C03": [D_SEM] + D_CMP + D_FLOAT[:1], "C04": [D_SEM] + D_CONV, "C05": D_FLOAT,
     "C06": [D_SEM, d_tlc("MC_Round: rounding methods as coded (masks, 0/1 integer-bit special cases) = exact roundings, every value, "
@@ -91,6 +113,7 @@ DESIGNS = {
     "C07": [D_SEM] + D_EUCLID, "C09": D_FMT,
     "C08": [d_tlc("MC_Parse: tokeniser as coded = grammar, every string up to length 5 over 10 symbols x 4 radices", "MC_Parse",
                   "MC_Parse_5.cfg", "int")], "C11": D_MUL[2:6], "C18": D_WRAPVM,
+    "C12": D_TRIG_FITS, "C16": D_TRIG + D_TRIG_FITS,
     "C13": [d_mathalg("C13", "sqrt")], "C14": [d_mathalg("C14", "log2, ln")], "C15": [d_mathalg("C15", "exp, powi"), D_MATHALG_REFUTE,
             d_tlc("MC_MathAlg (pow): exp(y ln x) as transcribed meets PowOk / TotalOk / WorkOk for every base and exponents "
                   "-2.5 .. 3 on the same layouts", "MC_MathAlg", "MC_MathAlg_pow.cfg", "big", workers=8, thorough_only=True)],
